@@ -10,6 +10,7 @@ TS = ['len(S.__ops__) == 1', 'S.__ops__[0] is S', 'len(T.__ops__) == 1', 'T.__op
 def config(cfg):
     common.apply(cfg)
     cfg.summaries['mutation.Delete._del_one'] = 'del_one'
+    cfg.summaries['mutation._apply_for_each'] = 'apply_for_each'
 
 
 def _nosum(*names):
@@ -25,8 +26,8 @@ def contracts():
                     args={'self': 'inst:mutation.Delete', 'dest': 'ref', 'op': 'str', 'arg': 'ref', 'scope': 'chainmap'},
                     cases=[('[', ["op == '['"]), ('.', ["op == '.'"]), ('P', ["op == 'P'"]), ('other', ["op != '['", "op != '.'", "op != 'P'"])]))
     cs.append(Equiv('mutation.Delete.glomit', 'ref_mut.delete_ref', args={'self': 'inst:mutation.Delete', 'target': 'ref', 'scope': 'chainmap'},
-                    requires=TS + ['self.path.path_t.__stars__() == 0', 'len(self.path.path_t.__ops__) % 2 == 1']))
-    cs.append(Equiv('mutation._apply_for_each', 'ref_mut.apply_for_each_ref', args={'func': 'ref', 'path': 'inst:core.Path', 'val': 'ref'},
+                    requires=TS + ['len(self.path.path_t.__ops__) % 2 == 1']))
+    cs.append(Equiv('mutation._apply_for_each', 'ref_mut.apply_for_each_ref', config=_nosum('mutation._apply_for_each'), args={'func': 'ref', 'path': 'inst:core.Path', 'val': 'ref'},
                     loops={1: dict(vars=[('val', 'ref')], ref_vars=[('val', 'ref')]),
                            2: dict(vars=[('func', 'ref')], ref_vars=[('func', 'ref')])}))
     cs.append(Equiv('mutation._del_sequence_item', 'ref_mut.del_seq_ref', args={'target': 'ref', 'idx': 'ref'}))
@@ -52,7 +53,18 @@ def _del_cases():
             yield t, "Delete(Path('x', %d), ignore_missing=True)" % i
 
 
+def _apply_cases():
+    vals = {0: ["1", "[1, 2]"], 1: ["[1, 2, 3]", "[]"], 2: ["[[1, 2], [3]]", "[[], []]"], 3: ["[[[1], [2, 3]], [[4]]]", "[[[]]]"],
+            4: ["[[[[1, 2]], [[3]]], [[[4]]]]"]}
+    for k, vs in vals.items():
+        for v in vs:
+            yield v, "Path.from_text(%r)" % '.'.join(['a'] + ['*'] * k)
+            if k:
+                yield v, "Path.from_text(%r)" % '.'.join(['**'] + ['b', '*'] * (k - 1))
+
+
 NATIVE = {
+    'mutation._apply_for_each': _n.differ('mutation._apply_for_each', 'ref_mut.apply_for_each_ref', _apply_cases, mode='apply'),
     'mutation.Delete': _n.differ('mutation.Delete.glomit', 'ref_mut.delete_ref', _del_cases, mode='method'),
 }
 ASSUMPTIONS = [
